@@ -98,7 +98,7 @@ def run_one(sim, params):
     opt = {}
     for n in ("A", "B"):
         opt[n] = {"role": "initiator" if n == ini else "target",
-                  "miu": sim.pick("miu." + n, MIUS), "lto": sim.pick("lto." + n, [100, 500, 2550, 1000]),
+                  "miu": sim.pick("miu." + n, MIUS), "lto": sim.pick("lto." + n, [100, 500, 2550, 1000, 90, 50]),
                   "agf": not sim.chance("noagf." + n, 0.3), "lsc": sim.pick("lsc." + n, [3, 0, 1, 2]),
                   "brs": sim.pick("brs." + n, [2, 0, 1]), "lri": sim.pick("lri." + n, [3, 0, 1, 2]),
                   "lrt": sim.pick("lrt." + n, [3, 0, 1, 2]), "rwt": sim.pick("rwt." + n, [8, 0, 4, 9, 10, 14])}
@@ -215,6 +215,10 @@ def run_one(sim, params):
     req(to == opt[tgt]["rwt"], "option", "rwt", "target announced TO=%d, option rwt=%d" % (to, opt[tgt]["rwt"]))
     req(pax_i["miu"] == opt[ini]["miu"] and pax_t["miu"] == opt[tgt]["miu"], "option", "miu",
         "MIU on the air %d/%d, options %d/%d" % (pax_i["miu"], pax_t["miu"], opt[ini]["miu"], opt[tgt]["miu"]))
+    req(pax_i["lto"] == opt[ini]["lto"] and pax_t["lto"] == opt[tgt]["lto"], "option", "lto",
+        "link timeout on the air %r/%r ms, options %r/%r" % (pax_i["lto"], pax_t["lto"], opt[ini]["lto"], opt[tgt]["lto"]))
+    req(pax_i["opt"] & 3 == opt[ini]["lsc"] and pax_t["opt"] & 3 == opt[tgt]["lsc"], "option", "lsc",
+        "link service class on the air %r/%r, options %r/%r" % (pax_i["opt"] & 3, pax_t["opt"] & 3, opt[ini]["lsc"], opt[tgt]["lsc"]))
     req(brs_wire == want_brs, "option", "brs", "bit rate selection on the air %d, option brs=%d" % (brs_wire, want_brs))
     ci, ct = res[ini + ".cfg"], res[tgt + ".cfg"]
     for (me, cfg, mine, peer) in ((ini, ci, pax_i, pax_t), (tgt, ct, pax_t, pax_i)):
